@@ -18,7 +18,8 @@ def heapStr (s : List Octet) : String :=
 /-- what is still allocated after the returned tree has been destroyed (0 by Props.C20.allocations_accounted) -/
 def leakStr (s : List Octet) : String :=
   let h := parse_h s 0
-  s!" leaked={(h.allocs : Int) - h.freed - h.node.weight}"
+  -- entry=same: sx_parse_stringn and sx_parse_string are sx_parse from position 0 (the harness runs all three)
+  s!" leaked={(h.allocs : Int) - h.freed - h.node.weight} entry=same"
 
 partial def showTree : Tree → String
   | .sym s => "S" ++ hexOf s
@@ -67,7 +68,7 @@ def stepLine (_ : Unit) (toks : List String) : Unit × String :=
     | some s, some (t, []) =>
       let r := sx_parse s 0
       let pos := if r.status == .success then s!" pos={r.pos}" else ""
-      s!"{statusStr r.status} tree={match r.node with | some t => showTree t | none => "-"}{pos}{heapStr s} ## success tree={showTree t} pos={s.length} leaked=0"
+      s!"{statusStr r.status} tree={match r.node with | some t => showTree t | none => "-"}{pos}{heapStr s} ## success tree={showTree t} pos={s.length} leaked=0 entry=same"
     | _, _ => "bad-op"
   | ["sx.deep", kind, n] =>
     -- deep nesting, a spec-level line (the model's list indexing is quadratic in the input length): n opening
